@@ -222,7 +222,7 @@ def gen_spec(base_seed, i, W):
     kind = ("random", "window", "stall", "pct", "window", "stall", "random")[i % 7]     # stratified
     policy = {"kind": kind, "gran": rng.choice(("instr", "instr", "line"))}
     if kind == "stall":
-        policy["c"] = rng.choice((1 / 20, 1 / 60, 1 / 200))
+        policy["c"] = rng.choice((1 / 100, 1 / 300, 1 / 1000))   # about 2 / 0.7 / 0.2 expected stall opportunities per run
         policy["stalls"] = rng.choice((1, 1, 2, 3))
     elif kind == "pct":
         d = rng.choice((1, 2, 3))
